@@ -9,7 +9,8 @@
    depth) are evaluated by the extracted holds_C10 on real luafmt output (harness/props/c10.py); their
    proof at whole-writer level needs Model/AstWriter.v. *)
 From PV Require Import Base.Prelude Spec.LuaTokens Model.FmtSpaces Model.FmtSpacesInst Model.WriterChunks
-  Generated.T_fmtspaces Proofs.FmtSpacesProofs Proofs.FmtLinesProofs Proofs.FmtChunksProofs.
+  Model.Tokens Model.AstWriter Generated.T_fmtspaces Proofs.FmtSpacesProofs Proofs.FmtLinesProofs Proofs.FmtChunksProofs
+  Proofs.AstWriterIndent.
 
 (* the pipeline only moves white space: every other byte of the run (comment text) is kept, in order *)
 Theorem C10_run_keeps_comment_text : forall cfg r, nonws (fmt_run cfg r) = nonws r.
@@ -113,6 +114,21 @@ Theorem C10_reindent_partial : forall w cs1 cs2, Forall2 chunk_equiv cs1 cs2 ->
   chunks_text (fmt_spaces w) cs1 = chunks_text (fmt_spaces w) cs2.
 Proof. exact chunks_reindent. Qed.
 Print Assumptions C10_reindent_partial.
+
+(* ---------- the writer walk (Model/AstWriter.v: the model of LuaASTEchoWriter's tree walk) ----------
+   The nesting counter is balanced, for every token list and every tree on which the walk succeeds (nothing
+   about the parser is assumed): each handler leaves _indent as it found it, and no white-space run of a whole
+   luafmt run is written with a negative _indent - so b' ' * indentwidth * _indent is exactly
+   indentwidth x _indent spaces, the quantity C10_run_indent / C10_indent_partial speak about. *)
+Theorem C10_walk_indent_balanced : forall ts n node st st',
+  walk ts n node st = Ok st' -> w_ind st' = w_ind st.
+Proof. exact walk_restores_indent. Qed.
+Print Assumptions C10_walk_indent_balanced.
+
+Theorem C10_writer_indent_nonneg : forall ts root cs p, writer_chunks ts root = Ok (cs, p) ->
+  Forall (fun c => match c with Trivia _ ind _ _ => 0 <= ind | Code _ _ => True end) cs.
+Proof. exact writer_indent_balanced. Qed.
+Print Assumptions C10_writer_indent_nonneg.
 
 (* the hypotheses are satisfiable: `do` NL NL `x` at depth 1, width 2 *)
 Example C10_chunks_nonvacuous :
